@@ -85,3 +85,82 @@ func HarnessC10(fam, nV, convCode, form, sv int) {
 	vnCover("C10.success-checked")
 	_ = fmt.Sprint
 }
+
+// HarnessC10Nil — nilable target types: Convert must return exactly the value the
+// identity call injects, including a typed nil pointer / nil slice (which is a value,
+// not a failure).
+//
+//	kind 0: *hP0 supplied directly (nil-ness symbolic)   1: *hP0 produced by a converter
+//	     2: []hP0 supplied directly (nil-ness symbolic)  3: []hP0 produced by a converter
+func HarnessC10Nil(kind int) {
+	hOrderSites(0)
+	isNil := vnBool("isNil")
+	x := vnPayload("x")
+	var args []Arg
+	var tt reflect.Type
+	mkPtr := func() *hP0 {
+		if isNil {
+			return nil
+		}
+		return &hP0{x}
+	}
+	mkSlice := func() []hP0 {
+		if isNil {
+			return nil
+		}
+		return []hP0{{x}}
+	}
+	switch kind {
+	case 0:
+		tt = reflect.TypeOf((*hP0)(nil))
+		args = []Arg{Typed(mkPtr())}
+	case 1:
+		tt = reflect.TypeOf((*hP0)(nil))
+		args = []Arg{Typed(hP1{x}), Converter(func(hP1) *hP0 { return mkPtr() })}
+	case 2:
+		tt = reflect.TypeOf([]hP0(nil))
+		args = []Arg{Typed(mkSlice())}
+	default:
+		tt = reflect.TypeOf([]hP0(nil))
+		args = []Arg{Typed(hP1{x}), Converter(func(hP1) ([]hP0, error) { return mkSlice(), nil })}
+	}
+	vnNote(fmt.Sprintf("nilable target kind %d isNil=%v", kind, isNil))
+	idf := reflect.MakeFunc(reflect.FuncOf([]reflect.Type{tt}, []reflect.Type{tt}, false), func(a []reflect.Value) []reflect.Value { return a })
+	f, err := NewFunc(idf.Interface())
+	vnAssert(err == nil, "C10.identity-function-accepted")
+	if err != nil {
+		return
+	}
+	cv, cerr := Convert(tt, args...)
+	r := f.Call(args...)
+	vnAssert((cerr == nil) == (r.Err() == nil), "C10.nil.convert-succeeds-exactly-when-the-identity-call-does")
+	vnAssert(cerr == nil, "C10.nil.conversion-succeeds")
+	if cerr != nil || r.Err() != nil || r.Len() != 1 {
+		return
+	}
+	iv := r.Out(0)
+	vnAssert(cv != nil, "C10.nil.a-typed-nil-is-a-value-not-a-failure")
+	vnAssert(reflect.TypeOf(cv) == tt, "C10.nil.value-has-the-target-type")
+	vnAssert(reflect.TypeOf(iv) == tt, "C10.nil.identity-value-has-the-target-type")
+	if kind <= 1 {
+		cp, ok1 := cv.(*hP0)
+		ip, ok2 := iv.(*hP0)
+		vnAssert(ok1 && ok2, "C10.nil.pointer-values")
+		if ok1 && ok2 {
+			vnAssert((cp == nil) == (ip == nil), "C10.nil.same-nilness-as-the-identity-call")
+			vnAssert((cp == nil) == isNil, "C10.nil.nilness-preserved")
+			if cp != nil && ip != nil {
+				vnAssert(cp.ID == ip.ID && cp.ID == x, "C10.nil.same-pointee")
+			}
+		}
+	} else {
+		cs, ok1 := cv.([]hP0)
+		is, ok2 := iv.([]hP0)
+		vnAssert(ok1 && ok2, "C10.nil.slice-values")
+		if ok1 && ok2 {
+			vnAssert((cs == nil) == (is == nil), "C10.nil.same-nilness-as-the-identity-call")
+			vnAssert(len(cs) == len(is), "C10.nil.same-length")
+		}
+	}
+	vnCover("C10.nilable-checked")
+}
